@@ -113,7 +113,9 @@ def run(ctx):
         if isinstance(x, ast.Compare) and any(isinstance(o, (ast.In, ast.NotIn)) for o in x.ops) and \
                 "invalid_original_rows" in norm(x.comparators[0]):
             n_map += 1
-            ctx.check(isinstance(x.left, ast.Attribute) and x.left.attr == "original_index", "R7.5", roc.qualname, x, loc(roc, x),
+            by_index = (isinstance(x.left, ast.Attribute) and x.left.attr == "original_index") or depends_on(
+                ReachingDefs(roc), x.left, x, lambda y: isinstance(y, ast.Attribute) and y.attr == "original_index")
+            ctx.check(by_index, "R7.5", roc.qualname, x, loc(roc, x),
                       "membership in the set of file rows that already failed is tested with `%s`, which is not the row's "
                       "original_index: after sorting / Delay splitting the wrong time point is skipped" % norm(x.left),
                       desc="failed-row skip uses original_index")
